@@ -19,6 +19,10 @@ RULES = '''field.description = regex_replace(field.description, "^POS ", "")
 match: contains("MARKET")
 tags: market
 
+[Deposits]
+match: amount < -100
+tags: income
+
 [Coffee]
 match: contains("COFFEE")
 category: Food
@@ -72,7 +76,9 @@ def make_budget(mode):
     b = Budget()
     b.write('data/card.csv', 'Date,Description,Amount\n01/05/2025,COFFEE SHOP,4.50\n01/06/2025,ORDER 77 STORE,30.00\n01/07/2025,SATURDAY MARKET STALL,12.00\n'
                              '01/08/2025,POS CART 5,7.00\n01/09/2025,UNKNOWN PLACE,9.99\n01/10/2025,COFFEE ROASTERS WHOLESALE,650.00\n01/11/2025,ORDER 99 STORE,15.00\n'
-                             '01/12/2025,UNKNOWN PLACE,-3.00\n01/13/2025,PAY REF77 X,5.00\n01/14/2025,CORNER BAKERY,8.00\n01/15/2025,NEW CAR,9000.00\n01/16/2025,POS SQ BLUE BOTTLE 44,6.00\n')
+                             '01/12/2025,UNKNOWN PLACE,-3.00\n01/13/2025,PAY REF77 X,5.00\n01/14/2025,CORNER BAKERY,8.00\n01/15/2025,NEW CAR,9000.00\n01/16/2025,POS SQ BLUE BOTTLE 44,6.00\n'
+                             # left Unknown but tagged income by a tag-only rule: `up` counts it with the amount it uses for income (positive)
+                             '01/17/2025,ACME PAYROLL,-2000.00\n')
     b.write('data/orders.csv', 'Date,Id,Item,Amount\n01/01/2025,77,SECRET ORDER ROW,5.00\n01/02/2025,78,OTHER ROW,6.00\n')
     b.write('config/merchants.rules', RULES)
     b.settings({'year': 2025, 'merchants_file': 'config/merchants.rules', 'rule_mode': mode, 'data_sources': [
